@@ -347,9 +347,9 @@ def run(ctx):
     ctx.assumptions = [
         "AnalyzedSource::new produces documents satisfying Refs.nav_wf_b (hypothesis of C13_robust and C13_user_names_renamed): not proved, "
         "evaluated by the judge on every document of every run",
-        "the full functional statement C13_full_statement is not proved (and, since /repo b909979, no longer refuted: no counterexample is "
-        "known); it is validated by correspondence + oracle + its instances decided by the extracted model (judge command 37); "
-        "C13_roundtrip_statement is validated by the round-trip oracle only",
+        "the first half of the property is proved for layouts of well-typed abstract programs (C13_valid); in the wording `document without "
+        "diagnostics` (C13_full_statement) it is validated by correspondence + oracle + its instances decided by the extracted model (judge "
+        "command 37); C13_roundtrip_statement is validated by the round-trip oracle only",
         "serde/lsp-types JSON mapping trusted; positions are (line, UTF-16 column); a WorkspaceEdit's edits all refer to the original text",
     ]
     if thorough and proved:
@@ -373,9 +373,13 @@ EXPLANATION = (
     "the range of the identifier token under the cursor, which is not predefined (C13_prepare_range); every reference is one of rename's "
     "edits (C13_references_in_rename); each edit comes from an identifier node with the cursor's name and is the range of a token of the "
     "document (C13_rename_edits); in a global position the locals of the enclosing procedure play no role and no variable occurrences are "
-    "collected, elsewhere a local wins whatever else has its name and is not predefined (C13_global_position, C13_local_wins).  NOT "
-    "proved: C13_full_statement (Spec/Nav.v: references = the other occurrences bound to the same declaration, rename = all of them, null "
-    "for predefined entities, prepareRename = the occurrence's range or null, bindings computed from the tree by syntactic role).  It is no "
+    "collected, elsewhere a local wins whatever else has its name and is not predefined (C13_global_position, C13_local_wins).  PROVED for "
+    "every VALID program in every layout (C13_valid, C13_valid_text: abstract program of the grammar accepted by the declarative static "
+    "semantics, any text that lexes to its tokens, every identifier occurrence, every cursor position inside it): references = exactly the "
+    "other occurrences bound to the same declaration, rename = one edit per occurrence of the binding incl. the declaration and null for "
+    "predefined entities, prepareRename = the identifier's range exactly when rename is offered - with occurrences and bindings computed "
+    "from the TREE alone (Spec/Nav.v), not from the symbol table the handlers use; the answers are even equal as lists in tree order.  NOT "
+    "proved: C13_full_statement in its wording `document without diagnostics` (needs front-end completeness).  It is no "
     "longer refuted: on the witnesses of the four findings repaired by b909979 (now regression corpus) and on a program with every "
     "local/global name collision it holds at every occurrence (C13_repaired_witnesses_agree, by vm_compute), and no counterexample is "
     "known.  C13_roundtrip_statement (apply the edits: same diagnostics, same binding partition, rename back restores the text) is stated "
